@@ -82,6 +82,19 @@ def _tied_skeletons(tier):
       g.sg.tensors[g.sg.operators[-1].inputs[1]].buffer = buf
       g.output(r)
     return mb.build()
+  def two_shapes():
+    # the exporter de-duplicates buffers by their bytes whatever the shape:
+    # w1[2,4] and w2[4,2] on one buffer
+    mb = skeletons.ModelBuilder()
+    g = mb.subgraph()
+    data = np.arange(8, dtype=np.float32).reshape(2, 4) / 4 - 0.8
+    x = g.input('x', (1, 4))
+    w1 = g.const('w1', data)
+    w2 = g.const('w2', data.reshape(4, 2), buffer=g.sg.tensors[w1].buffer)
+    a = g.fc(x, 'fc1', bias=False, w_idx=w1)
+    g.output(g.fc(a, 'y', bias=False, w_idx=w2))
+    return mb.build()
+  out['buffer_shared_by_two_shapes'] = two_shapes()
   out['float_bias_and_int_shape_one_buffer'] = float_int_tie(False)
   out['float_bias_and_int_shape_two_subgraphs'] = float_int_tie(True)
   if tier == 'thorough':
@@ -172,6 +185,14 @@ def shared_constant_problems(inp, out):
           continue
         sc = np.array([float(np.asarray(x)) for x in q.scale])
         zp = np.array([int(np.asarray(x)) for x in q.zeroPoint])
+        qd_ = q.quantizedDimension or 0
+        if len(sc) != len(zp) or (len(sc) > 1 and (
+            qd_ >= len(t1.shape) or int(t1.shape[qd_]) != len(sc))):
+          pr.append(f'constant {nm!r}: shape {list(t1.shape)} carries '
+                    f'{len(sc)} scales / {len(zp)} zero points along '
+                    f'dimension {qd_} (parameters of another view of the '
+                    'buffer?)')
+          continue
         deq = decoder.dequantize(vals, sc, zp, q.quantizedDimension or 0,
                                  tuple(t1.shape))
         step = sc if len(sc) == 1 else sc.reshape(
